@@ -86,7 +86,16 @@ func VerifC06_UpdateStrategy() {
 	var obs *unstructured.Unstructured
 	// a hook that (wrongly) sets status and system metadata does so on every call
 	hookSetsSystem := rt.Bool("hook-sets-system-fields")
+	// a hook that writes an explicitly EMPTY list (of objects) on every call, to
+	// which somebody else adds an item on the live child ("foreign-field")
+	emptyList := exists && wanted && rt.Bool("hook-lists-an-explicitly-empty-list")
+	if emptyList {
+		rt.Cover("explicitly-empty-list")
+	}
 	withSystem := func(des *unstructured.Unstructured) *unstructured.Unstructured {
+		if emptyList {
+			des.Object["items"] = []interface{}{}
+		}
 		if hookSetsSystem {
 			des.Object["status"] = map[string]interface{}{"phase": "hook"}
 			md := des.Object["metadata"].(map[string]interface{})
@@ -117,6 +126,9 @@ func VerifC06_UpdateStrategy() {
 			}
 			obs.Object[key].(map[string]interface{})["other"] = rt.String("foreign")
 			env.SetLabel(obs, "added-by", "someone")
+			if emptyList {
+				obs.Object["items"] = []interface{}{map[string]interface{}{"name": rt.String("foreign-item"), "v": "x"}}
+			}
 		}
 		if rt.Bool("has-status") {
 			obs.Object["status"] = map[string]interface{}{"phase": rt.String("phase")}
